@@ -173,7 +173,7 @@ def run(ctx, rep):
     ng = R.periodic_heartbeat_solicits_ack(fx, rep, "R03e")
     rep.floor("R03e", ng, 3, "periodic heartbeat + reader must_send_acknacks sites")
     sites = removal_sites(fx, "UserDefinedDataWriter", "matched_subscription_list")
-    rep.floor("R03c", len(sites), 2, "removals from matched_subscription_list")
+    rep.floor("R03c", len(sites), 1, "removals from matched_subscription_list")
     for b, bb, t in sites:
         ok, chain = accompanied(fx, b, ("RtpsStatefulWriter::delete_matched_reader",))
         rep.add("R03c", b.sname, "matched reader removal deletes the RTPS reader proxy", ok,
